@@ -324,6 +324,149 @@ def flips_text(fl):
     return ",".join("%d:%02x" % (p, m) for p, m in fl) if fl else "-"
 
 
+# ------------------------------------------------------------------ synthetic logs (model/implementation tie only, no oracle)
+
+_crc_tab = []
+
+
+def crc32(b):
+    """iwu_crc32: MSB-first, polynomial 0x04c11db7, init 0, no final xor"""
+    if not _crc_tab:
+        for i in range(256):
+            c = i << 24
+            for _ in range(8):
+                c = ((c << 1) ^ 0x04c11db7) & 0xffffffff if c & 0x80000000 else (c << 1) & 0xffffffff
+            _crc_tab.append(c)
+    c = 0
+    for x in b:
+        c = ((c << 8) & 0xffffffff) ^ _crc_tab[((c >> 24) ^ x) & 255]
+    return c
+
+
+def synth_log(r, crc_on, lim=8192):
+    """A mostly well-formed log (all record kinds, incl. COPY and RESIZE which real histories hardly produce), with
+    occasional malformations. Every store stays inside the first `lim` bytes and the file never shrinks below that."""
+    out = bytearray()
+    nseg = r.randrange(1, 9)
+    for si in range(nseg):
+        body = bytearray()
+        tailp = b""
+        nrec = r.randrange(0, 7)
+        for ri in range(nrec):
+            k = r.random()
+            if k < 0.25:
+                ln = r.choice([0, 1, r.randrange(1, 300)]); off = r.randrange(0, lim - ln)
+                body += struct.pack("<B3xIqq", SET, r.randrange(0, 1 << 32), off, ln)
+            elif k < 0.6:
+                ln = r.choice([0, 1, r.randrange(1, 400)]); off = r.randrange(0, lim - ln)
+                pl = bytes(r.randrange(256) for _ in range(ln))
+                c = crc32(pl) if crc_on else 0
+                body += struct.pack("<B3xIIq", WRITE, c, ln, off)
+                if ri == nrec - 1 and r.random() < 0.4:
+                    tailp = pl          # payload written outside the segment
+                else:
+                    body += pl
+            elif k < 0.72:
+                ln = r.choice([0, r.randrange(1, 200)]); off = r.randrange(0, lim - ln); noff = r.randrange(0, lim - ln)
+                body += struct.pack("<B3xqqq", COPY, off, ln, noff)
+            elif k < 0.8:
+                ns = r.choice([lim, lim + 1, lim + 4096, 3 * 4096, 4 * 4096 - 7, 5 * 4096])
+                body += struct.pack("<B3xqq", RESIZE, 0, ns)
+            elif k < 0.9:
+                body += struct.pack("<B3xQ", SAVEPOINT, 1700000000000 + r.randrange(1 << 30))
+            else:
+                body += struct.pack("<B3x", RESET)
+        if r.random() < 0.6 and not tailp:
+            body += struct.pack("<B3xQ", SAVEPOINT, 1700000000000 + r.randrange(1 << 30))
+        if r.random() < 0.15 and not tailp:
+            body = bytearray(struct.pack("<B3x", RESET))          # the separator + reset mark a checkpoint appends during a backup
+        ln = len(body)
+        c = crc32(body) if crc_on else 0
+        m = r.random()
+        if m < 0.04:
+            ln = max(0, ln + r.choice([-13, -1, 1, 11, 12, 13, 40]))
+        elif m < 0.06:
+            c ^= 1 << r.randrange(32)
+        out += struct.pack("<B3xII", SEP if r.random() < 0.98 else r.choice([0, 5, 6, 1, 200]), c, ln) + body + tailp
+    if r.random() < 0.1:
+        out += bytes(r.randrange(256) for _ in range(r.randrange(1, 30)))
+    return bytes(out)
+
+
+def synth_cases(ctx, r, wd, nlogs, ncut):
+    cases = []
+    work = os.path.join(wd, "swork.db")
+    for i in range(nlogs):
+        crc_on = r.random() < 0.6
+        wal = synth_log(r, crc_on)
+        pre = bytes(r.randrange(256) for _ in range(256)) * (r.choice([2, 3, 4]) * 16)
+        pp, wp = os.path.join(wd, "s%d.pre" % i), os.path.join(wd, "s%d.wal" % i)
+        open(pp, "wb").write(pre); open(wp, "wb").write(wal)
+        recs = parse_log(wal)
+        for (_, _, op) in recs:
+            ctx.hist("synth-rec-" + NAMES[op])
+        n = len(wal)
+        cuts = {0, n}
+        for (p, ln, op) in recs:
+            cuts.update(c for c in (p, p + 1, p + HDR[op] - 1, p + HDR[op], p + ln - 1) if c <= n)
+        cl = sorted(cuts)
+        r.shuffle(cl)
+        ops = ["load %s %s" % (pp, wp), "wf"]
+        for c in sorted(cl[:ncut]) + [n]:
+            for mode in (1, 2):
+                # logs written without checksums are also read with checking on (a zero crc field is not checked)
+                ops.append("roll %s %d %d %d -" % (work, mode, 1 if crc_on or r.random() < 0.3 else 0, c))
+            ops.append("scan %d -" % c)
+        if crc_on and n:
+            for _ in range(ncut // 2):
+                fl = flips_text([(r.randrange(n), 1 << r.randrange(8))])
+                ops.append("roll %s %d 1 %d %s" % (work, r.choice([1, 2]), n, fl))
+                ops.append("scan %d %s" % (n, fl))
+        c = Case("synth", ops, None, key=("synth", i))
+        cases.append(c)
+    return cases
+
+
+def run_synth(ctx, h, drv, r, wd, nlogs, ncut):
+    """model first: stores outside the main file (undefined behaviour in C) are not sent to the implementation"""
+    if not drv:
+        return
+    cases = synth_cases(ctx, r, wd, nlogs, ncut)
+    mout, mcr = run_batch([drv, "c05"], cases, timeout=900)
+    if mcr:
+        ctx.corr_broken.append("model driver failed on synthetic logs: %s" % str(list(mcr.values())[0][1])[-300:])
+        return
+    icases = []
+    for i, c in enumerate(cases):
+        ops = []
+        for k, o in enumerate(c.ops):
+            bad = "rc=fault" in mout[i][k]
+            if bad:
+                ctx.hist("synth-skipped-fault")
+            ops.append("nop" if bad or o == "wf" else o)
+        icases.append(Case("synth", ops))
+    iout, icr = run_batch([h], icases, timeout=900)
+    for i, c in enumerate(cases):
+        if iout.get(i) is None:
+            rc, err = icr[i][0], icr[i][1]
+            kind, fn = san_site(err)
+            k = len(icr[i][2]) if len(icr[i]) > 2 else 0
+            ctx.corr_broken.append("implementation died (%s in %s) on synthetic log op `%s` where the model predicts `%s`" % (
+                kind, fn, c.ops[min(k, len(c.ops) - 1)], mout[i][min(k, len(c.ops) - 1)]))
+            continue
+        for k, o in enumerate(c.ops):
+            if icases[i].ops[k] == "nop" or k == 0:
+                continue
+            ctx.case(("synth", i, o))
+            ctx.cov["traces_validated_against_impl"] += 1
+            a, b = iout[i][k], mout[i][k]
+            ctx.hist("synth-" + o.split()[0] + "-" + (field(b, "rc") or "scan"))
+            if a != b:
+                ctx.corr_broken.append("model/implementation diverge on synthetic log %d `%s`: impl `%s` model `%s`" % (i, o, a, b))
+                if len(ctx.corr_broken) <= 5:
+                    ctx.log("DIVERGE synthetic", c.ops[0], o, "| impl:", a, "| model:", b)
+
+
 # ------------------------------------------------------------------ oracle
 
 def allowed_states(lg, cut):
@@ -386,11 +529,29 @@ def cases_for(ctx, r, lg, wd, quota_cuts, quota_flips, mfrac):
             ends.add(p + 12 + struct.unpack_from("<I", wal, p + 8)[0])
     work = os.path.join(wd, "work.db")
     items = []      # (kind, cut, flips, opline)
+    # hypotheses of theorem recover_cut, evaluated by the model on this real log (python's own parse cross-checks the walk)
+    nres = sum(1 for (_, _, op) in recs if op == RESET)
+    whole = bool(recs) and recs[-1][0] + recs[-1][1] == len(wal)
+    lg.wf_expect = "wf sep=1 closed=1 full=%d nrec=%d nsp=%d nreset=%d" % (1 if whole or not wal else 0, len(recs), sum(1 for (_, _, op) in recs if op == SAVEPOINT), nres)
+    if wal:
+        items.append(("wf", len(wal), [], "wf"))
     for c in pick_cuts(r, lg, wal, recs, quota_cuts):
+        if lg.mode == 2 and 0 < c < 12:
+            # _iwkv_check_online_backup does not take this for a backup image (log part shorter than a separator):
+            # the file is opened as a plain store with trailing bytes; only a clean outcome is asked for
+            items.append(("noimage", c, [], "rec %s %d %d %d -" % (work, lg.mode, lg.crc, c)))
+            continue
         items.append(("cut", c, [], "rec %s %d %d %d -" % (work, lg.mode, lg.crc, c)))
         items.append(("scan", c, [], "scan %d -" % c))
     if lg.crc:
-        for fl in pick_flips(r, wal, recs, quota_flips):
+        extra = []
+        if lg.resets:      # damage in the part of a backup-time log that is already applied (open finding F38 lives here)
+            before = [(p, ln, op) for (p, ln, op) in recs if p + ln <= lg.resets[-1][0] - 16]
+            for _ in range(8):
+                if before:
+                    p, ln, op = r.choice(before)
+                    extra.append([(p + r.choice([0, 0, 1, 8, 9]), 1 << r.randrange(8))])
+        for fl in pick_flips(r, wal, recs, quota_flips) + extra:
             items.append(("flip", len(wal), fl, "rec %s %d %d %d %s" % (work, lg.mode, lg.crc, len(wal), flips_text(fl))))
             items.append(("scan", len(wal), fl, "scan %d %s" % (len(wal), flips_text(fl))))
     cases = []
@@ -399,7 +560,7 @@ def cases_for(ctx, r, lg, wd, quota_cuts, quota_flips, mfrac):
         c = Case("log", ["load %s %s" % (lg.pre, lg.wal)] + [it[3] for it in chunk], None, key=(lg.tag, i))
         c.oracle = (lg, chunk, recs)
         # the model replays lists: it answers every pre-scan but only a sample of the recoveries
-        c.model = [c.ops[0]] + [it[3] if it[0] == "scan" or r.random() < mfrac else "nop" for it in chunk]
+        c.model = [c.ops[0]] + [it[3] if it[0] in ("scan", "wf") or (it[0] != "noimage" and r.random() < mfrac) else "nop" for it in chunk]
         cases.append(c)
     return cases
 
@@ -423,13 +584,25 @@ def evaluate(ctx, cases, iout, icr, mout, mcr):
             line = impl[k + 1]
             ctx.case((lg.tag, opl))
             ctx.hist("dmg-%s-%s" % (kind, where(recs, flips[0][0]) if flips else where(recs, max(0, cut - 1)) if cut else "empty"))
+            if kind == "wf":
+                if model is not None and k + 1 < len(model) and model[k + 1] != lg.wf_expect:
+                    ctx.corr_broken.append("log %s: hypotheses of recover_cut as evaluated by the model `%s`, expected `%s`" % (lg.tag, model[k + 1], lg.wf_expect))
+                    ctx.log("WF", lg.tag, model[k + 1], "| expected", lg.wf_expect)
+                elif model is not None:
+                    ctx.hist("log-satisfies-theorem-hypotheses")
+                continue
+            if kind == "noimage":
+                ctx.hist("result-noimage-" + (field(line, "open") or "?"))
+                continue
             if kind != "scan":
                 prob = check_rec(lg, cut, flips, line)
                 ctx.hist("result-" + ("open-fails" if field(line, "open") != "0" else "savepoint-state" if not prob else "bad"))
                 if prob:
+                    first = min(p for p, _ in flips) if flips else cut
                     sig = dict(kind="oracle", cls=prob[0], damage=kind, mode=str(lg.mode), crc=str(lg.crc),
                                at=where(recs, flips[0][0]) if flips else where(recs, max(0, cut - 1)),
-                               resets=str(len(lg.resets)))
+                               resets=str(len(lg.resets)),
+                               region="before-last-reset" if lg.resets and first < lg.resets[-1][0] else "tail")
                     ctx.fail(sig, dict(log=lg.tag, history=lg.ops, op=opl, impl=line, savepoints=lg.sps, resets=lg.resets), prob[1])
             if model is not None and k + 1 < len(model) and model[k + 1] != "skip":
                 ctx.cov["traces_validated_against_impl"] += 1
@@ -441,7 +614,7 @@ def evaluate(ctx, cases, iout, icr, mout, mcr):
                         ctx.log("DIVERGE", opl, "| impl:", a, "| model:", b)
 
 
-def explore(ctx, h, drv, label, nhist, nops, quota_cuts, quota_flips, grow=(60000, 120000, 200000), mfrac=1.0):
+def explore(ctx, h, drv, label, nhist, nops, quota_cuts, quota_flips, grow=(60000, 120000, 200000), mfrac=1.0, nsynth=60):
     r = C.Rng(ctx.seed, "c05/" + label)
     wd = os.path.join(C.scratch(), "c05-" + label)
     os.makedirs(wd, exist_ok=True)
@@ -467,6 +640,8 @@ def explore(ctx, h, drv, label, nhist, nops, quota_cuts, quota_flips, grow=(6000
             i = sorted(mcr)[0]
             ctx.corr_broken.append("model driver failed on case %s: %s" % (cases[i].ops[:2], str(mcr[i][1])[-300:]))
     evaluate(ctx, cases, iout, icr, mout, mcr)
+    run_synth(ctx, h, drv, r, wd, nsynth, 25)
+    ctx.log("synthetic logs done")
 
 
 def run(ctx):
@@ -484,9 +659,11 @@ def run(ctx):
     if ctx.tier == "quick":
         explore(ctx, h, drv, "main", 6, 60, 70, 60, grow=(20000, 40000), mfrac=0.5)
     else:
-        explore(ctx, h, drv, "main", 30, 200, 400, 300)
+        explore(ctx, h, drv, "main", 30, 200, 400, 300, nsynth=600)
     if ctx.proof_broken or ctx.corr_broken:
         ctx.log("obligation or correspondence broken: widening the search for a failing input")
+        for x in (ctx.proof_broken + ctx.corr_broken)[:3]:
+            ctx.log("  broken:", x[:500])
         for i in range(3):
             explore(ctx, h, None, "search%d" % i, 6, 80, 120, 100)
 
